@@ -402,8 +402,8 @@ def xcmp_listing_records(d, tdir, sources):
     return recs
 
 
-def layout_pipeline(tier, d, rng, exe, passes=False):
-    """generate -> assemble in process -> records.  Returns (cases, results, records, keep, notes)"""
+def layout_cases(tier, d, rng):
+    """all cases of the layout families (sources and directive lists only)"""
     thorough = tier != "quick"
     cc = coupled_cases(True)
     if not thorough:
@@ -419,18 +419,51 @@ def layout_pipeline(tier, d, rng, exe, passes=False):
     import corpus
     tdir = corpus.tools()
     cases += corpus_cases(d, tdir)
-    res = run_cases(exe, cases, d, "lay", flags="p" if passes else "-")
-    recs, keep, notes = [], [], []
-    for c, r in zip(cases, res):
-        if r['status'] != 'ok' or c.get('notlc'):
-            continue
-        rec, note = tlc_record(c, r)
-        recs.append(rec); keep.append(c); notes.append(note)
-    return cases, res, recs, keep, notes, tdir
+    return cases, tdir
+
+
+def layout_chunks(tier, d, rng, exe, chunk_directives=1500000):
+    """generate -> assemble in process -> records, in chunks of bounded size (the thorough tier does not fit in memory at once).
+    Yields (cases, results, records, kept cases, notes, tdir)."""
+    cases, tdir = layout_cases(tier, d, rng)
+    i = 0; k = 0
+    while i < len(cases):
+        j = i; n = 0
+        while j < len(cases) and (n == 0 or n + len(cases[j]['prog']) <= chunk_directives):
+            n += len(cases[j]['prog']); j += 1
+        part = cases[i:j]
+        res = run_cases(exe, part, d, "lay%d" % k)
+        recs, keep, notes = [], [], []
+        for c, r in zip(part, res):
+            if r['status'] != 'ok' or c.get('notlc'):
+                continue
+            rec, note = tlc_record(c, r)
+            recs.append(rec); keep.append(c); notes.append(note)
+        yield part, res, recs, keep, notes, tdir
+        if j < len(cases):          # (a single chunk is handed back whole: layout_pipeline)
+            for c in part:
+                c.pop('prog', None)
+        i = j; k += 1
+
+
+def layout_pipeline(tier, d, rng, exe, passes=False):
+    """everything at once (quick tier sizes only)"""
+    allc, allr, recs, keep, notes, tdir = [], [], [], [], [], None
+    for part, res, r, k, n, tdir in layout_chunks(tier, d, rng, exe, 10 ** 9):
+        allc += part; allr += res; recs += r; keep += k; notes += n
+    return allc, allr, recs, keep, notes, tdir
+
+
+def relax_candidates(cases, res, rng, limit):
+    """the cases whose relaxation passes are worth recording: accepted, with label references, not huge"""
+    cand = [c for c, r in zip(cases, res) if r['status'] == 'ok' and 'prog' in c and len(c['prog']) <= 1500 and any(x['k'] == 'ref' for x in c['prog'])
+            and not any(x['k'] == 'imm' and x['v'] == -2 ** 31 for x in c['prog'])]
+    rng.shuffle(cand)
+    return [dict(c) for c in cand[:limit]]      # (copies: the chunk loop drops the originals' directive lists)
 
 
 def relax_records(cases, res, rng, limit):
-    """mechanism-conformance records (AsmRelaxV): programs with label references, the passes hexasm made"""
+    """mechanism-conformance records (AsmRelaxV): programs with label references, the passes hexasm made (cases run with flag p)"""
     out = []
     for c, r in zip(cases, res):
         if r['status'] != 'ok' or 'passes' not in r or not any(x['k'] == 'ref' for x in c['prog']):
